@@ -469,7 +469,12 @@ type lockEdge struct {
 // lockOrder: see lockOrderDoc. The locks held at a point are the must-held
 // locksets of the lockset engine (a lock held on only some paths to a call is
 // not seen: the rule reports cycles, it does not prove their absence).
-func (c *Ctx) lockOrder() {
+func (c *Ctx) lockOrder() { c.lockOrderMin(1) }
+
+// lockOrderMin: lockOrder for a module tabled with at least minEdges ordered
+// pairs (0 for a module with a single mutex, where only the re-acquisition
+// clause can fire).
+func (c *Ctx) lockOrderMin(minEdges int) {
 	res := c.lockResults()
 	g := c.graph()
 	// locks a function may take, itself or in what it calls
@@ -688,5 +693,9 @@ func (c *Ctx) lockOrder() {
 	}
 	sort.Strings(bad)
 	c.R.CallSites += len(edges)
-	c.verdict(len(bad) == 0 && len(edges) >= 1, "module | mutex acquisition order is acyclic", "", fmt.Sprintf("%d ordered pair(s) of mutexes (A held while B is taken); no cycle of length 2 or 3 with a writer", len(edges)), join(bad), c.ats(sites)...)
+	pos := ""
+	if len(sites) > 0 {
+		pos = c.at(sites[0])
+	}
+	c.verdict(len(bad) == 0 && len(edges) >= minEdges, "module | mutex acquisition order is acyclic", pos, fmt.Sprintf("%d ordered pair(s) of mutexes (A held while B is taken); no cycle of length 2 or 3 with a writer", len(edges)), join(bad), c.ats(sites)...)
 }
